@@ -122,7 +122,7 @@ pub fn classify(msg: &str) -> String {
             return format!("causality:{}", i);
         }
     }
-    let table: [(&str, &str); 24] = [
+    let table: [(&str, &str); 25] = [
         ("Model exceeded maximum number of branches", "branchLimit"),
         ("deadlock; threads =", "deadlock"),
         ("assertion failed: self.threads.len() < self.max()", "threadLimit"),
@@ -147,6 +147,8 @@ pub fn classify(msg: &str) -> String {
         ("only a single thread may wait on `Notify`", "notifyTwoWaiters"),
         ("expected to be able to read the message", "msgUnderflow"),
         ("harness: user panic", "user"),
+        // `assert_ne!(mo_i, mo_j)` in rt/atomic.rs match_load_to_stores / match_rmw_to_stores ("this sometimes fails")
+        ("assertion `left != right` failed", "internal:10"),
     ];
     for (p, c) in table.iter() {
         if first.starts_with(p) || first.contains(p) {
